@@ -345,10 +345,26 @@ class Rewriter:
                 return 'vec_remove_range(&mut %s, %s, %s);' % (mm.group(1), mm.group(2), mm.group(3))
             text = re.sub(r'(?m)(?<=[;{}\n])(\s*)([A-Za-z_][\w.]*)\.drain\(\s*([^;]+?)\s*\.\.\s*([^;.][^;]*?)\s*\)\s*;',
                           lambda mm: mm.group(1) + r7_fmt(self, fid, mm), text)
+            # R15  `X.sort_by_key( |p| E );` -> ohsl_sort_by_key(X, |p| E, Ghost(|p| (E) as int));  the key expression is
+            #      duplicated verbatim as a ghost spec closure so that the sort contract can speak about the key
+            def r15(mm):
+                self.log.append(('R15', fid, mm.group(0).strip()))
+                sig = getattr(self, 'sig_text', '')
+                tm = re.search(r'\b' + re.escape(mm.group(2)) + r'\s*:\s*&mut\s+Vec\s*<', sig)
+                if not tm:
+                    raise ExtractError('R15: cannot find the element type of %s in the signature' % mm.group(2))
+                depth, j = 1, tm.end()
+                while depth > 0:
+                    depth += {'<': 1, '>': -1}.get(sig[j], 0)
+                    j += 1
+                elem = sig[tm.end():j - 1]
+                return '%sohsl_sort_by_key(%s, |%s| %s, Ghost(|%s: %s| (%s) as int));' % (
+                    mm.group(1), mm.group(2), mm.group(3), mm.group(4), mm.group(3), elem, mm.group(4))
+            text = re.sub(r'(?m)(?<=[;{}\n])(\s*)([A-Za-z_]\w*)\.sort_by_key\(\s*\|\s*(\w+)\s*\|\s*([^;]+?)\s*\)\s*;', r15, text)
             # R7b  `for PAT in X.drain(..)` -> `for PAT in core::mem::take(X)` (X: &mut Vec)
             def r7b(mm):
                 self.log.append(('R7', fid, mm.group(0)))
-                return '%s core::mem::take(%s)' % (mm.group(1), mm.group(2))
+                return '%s vec_take(%s)' % (mm.group(1), mm.group(2))
             text = re.sub(r'(\bfor\s+\w+\s+in)\s+([A-Za-z_]\w*)\.drain\(\s*\.\.\s*\)', r7b, text)
         if spec is None:
             return text
@@ -667,6 +683,7 @@ class Generator:
         if not verified:
             out.gen(indent + '#[verifier::external_body]\n', 'external_body', fnid)
         sig = s[fn.code_start:fn.body_open]
+        rw.sig_text = sig
         sig = rw.apply(sig, 'sig')
         sig = self.name_ret(sig, sp, rel)
         out.src(indent + sig.rstrip() + '\n', rel, fn.code_start, fnid)
